@@ -288,6 +288,11 @@ class PX:
                 i = idx[1] if idx[0] in ('int', 'cidx') else None
                 if i is not None and not (idx[0] == 'cidx' and idx[3]):
                     return ('byte', bv[1], i, ())
+            if bv is not None and bv[0] == 'fld' and bv[2] == 0 and bv[1][0] == 'tiny':
+                # a byte of the storage of a TinyAsciiStr value (constant patterns are matched byte by byte): the transformed input byte, NUL beyond its end
+                i = idx[1] if idx[0] in ('int', 'cidx') else None
+                if i is not None and not (idx[0] == 'cidx' and idx[3]):
+                    return ('tbyte', bv[1][1], i, bv[1][2])
             if bv is not None and bv[0] == 'array':
                 i = idx[1] if idx[0] in ('int', 'cidx') else None
                 if i is not None and not (idx[0] == 'cidx' and idx[3]) and i < len(bv[1]):
@@ -931,6 +936,10 @@ class PX:
         other = t['else']
         if v[0] == 'int':
             return [(tmap.get(v[1], other), st)]
+        if v[0] == 'discr' and v[1][0] == 'tbyte':
+            r = self.models.decide_switch(self, st, v[1], targets, other)
+            if r is not None:
+                return r
         if v[0] == 'discr':
             inner, ty = v[1], v[2]
             sk = sumkind(ty)
